@@ -346,8 +346,20 @@ def check_equality(spec, seed, obs, other_tree=None):
             elif what == 'new_option':
                 sec.options[key] = 'Z'
             else:
+                # through the public setter when the perturbed value keeps
+                # the declared type; the private slot is only a fallback for
+                # sections without content
+                saved_public = sec.content
                 try:
-                    object.__setattr__(sec, '_content', perturb(sec.content))
+                    if saved_public is not None:
+                        sec.content = perturb(saved_public)
+                    else:
+                        sec.content = {str: 'Z', bytes: b'Z',
+                                       dict: {'Z': 1}}[type(sec).data_type]
+                        if not hasattr(type(sec), '_content') and \
+                                '_content' not in getattr(type(sec),
+                                                          '__slots__', ()):
+                            pass
                 except Exception:
                     continue
             obs.case(('pert', seed, idx, what, key), nontrivial=True)
@@ -359,7 +371,16 @@ def check_equality(spec, seed, obs, other_tree=None):
             sec.options.clear()
             sec.options.update(saved_opts)
             if what == 'content':
-                object.__setattr__(sec, '_content', saved_content)
+                if saved_public is not None:
+                    sec.content = saved_public
+                else:
+                    try:
+                        object.__setattr__(sec, '_content', saved_content)
+                    except Exception:
+                        # cannot restore "no content" through the public
+                        # API: stop perturbing this pair
+                        obs.count('perturbation_pair_abandoned(no restore)')
+                        return
         if not (a == b):
             obs.violation('restore_failed(harness)', case)
             return
